@@ -438,6 +438,8 @@ func runC13(c *Ctx) {
 	c.rep.Extra["functions_returning_io_derived_errors"] = eNames
 
 	scannerT := c.typeObj("postscript", "scanner")
+	executeFn := c.method("postscript", "Interpreter", "Execute")
+	execScannerFn := c.method("postscript", "Interpreter", "executeScanner")
 	nSites := 0
 	for _, f := range c.modFuncs {
 		if isInitFunc(f) {
@@ -456,6 +458,12 @@ func runC13(c *Ctx) {
 			nSites++
 			construct := "error of " + desc
 			com := call.Common()
+			// the run's result in Execute is mapped by a decision table (signals become nil /
+			// invalidexit, everything else is passed on): rules_execute.go
+			if f == executeFn && com.StaticCallee() == execScannerFn {
+				c.executeRules(false, false, true)
+				return
+			}
 			ei := errIndex(com.Signature())
 			// scanner methods: sticky rule
 			onScanner := false
